@@ -119,7 +119,7 @@ def run(prog, chk):
                 if t.rhs is not None and q.is_zero(f, t.rhs) and (tl.startswith(blk + "->str[") or tl == "*" + blk + "->str" or
                                                                    (tl.startswith("*") and blk + "->str" in q.no_casts(C.norm(f, t.lhs, {}, defs)))):
                     nul.append(t.node)
-                elif t.rhs is not None and q.is_zero(f, t.rhs) and tl.startswith("*"):
+                elif t.rhs is not None and q.is_zero(f, t.rhs) and (tl.startswith("*") or re.match(r"^\w+\[", tl)):
                     # `*i = 0` where the cursor i was initialised from the block's text pointer
                     r = C.base_local(f, t.lhs)
                     if r is not None and any(init is not None and blk + "->str" in q.no_casts(f.r(init)) for kind, _n, init in defs.get(r["id"], [])):
